@@ -8,6 +8,7 @@
 #pragma once
 #include <atomic>
 #include <cstring>
+#include <functional>
 #include <memory>
 #include <string>
 #include <thread>
@@ -157,6 +158,11 @@ struct Params {
   c14f::FileSpec fs; std::string dir, name = "c14";
   std::vector<std::pair<double, double>> poly;
   bool inter_exact = false;
+  // second ellipsoid: every "alternative constructor" object lives on (a2, f2) != (a, f), so that each trial mixes
+  // at least two ellipsoids (plus WGS84 of the singletons / data files and Airy of OSGB) in one process
+  double a2 = 6378137, f2 = 1 / 297.0, ftm2 = 1 / 297.0;
+  int freshdeg = 30;              // degree of the harmonic object whose FIRST evaluation happens after the barrier (set by the trial)
+  bool prebuilt_circles = true;   // false: no harmonic sum is evaluated before the barrier (no Circle() in the constructor)
 };
 
 inline Params make_params(Rng& r, const std::string& dir) {
@@ -188,11 +194,14 @@ inline Params make_params(Rng& r, const std::string& dir) {
   int nv = r.range(3, 9);
   for (int k = 0; k < nv; ++k) P.poly.push_back({glat(r), glon(r)});
   P.inter_exact = r.coin(0.3);
+  do { P.f2 = r.coin(0.7) ? r.pick(fl) : r.sign() * r.logu(1e-6, 0.1); } while (P.f2 == P.f);
+  P.a2 = r.coin(0.5) ? 6378137.0 : r.coin() ? 3396190.0 : r.logu(1e3, 1e9);
+  P.ftm2 = P.f2 > 0 ? P.f2 : (P.f2 < 0 ? -P.f2 : 1 / 150.0);
   return P;
 }
 
 inline vh::J params_json(const Params& P) {
-  return vh::J().f("a", P.a).f("f", P.f).f("k0", P.k0).f("lat0", P.lat0).f("lon0", P.lon0).f("k2", P.k2).f("alpha2", P.alpha2)
+  return vh::J().f("a", P.a).f("f", P.f).f("a2", P.a2).f("f2", P.f2).i("freshdeg", P.freshdeg).b("prebuilt_circles", P.prebuilt_circles).f("k0", P.k0).f("lat0", P.lat0).f("lon0", P.lon0).f("k2", P.k2).f("alpha2", P.alpha2)
     .i("shN", P.shN).i("gN", P.fs.gN).i("mN", P.fs.mN).i("gw", P.fs.gw).i("gh", P.fs.gh);
 }
 
@@ -200,134 +209,176 @@ inline std::vector<double> mkcoef(Rng& r, int n, double scale) {
   std::vector<double> v(n); for (auto& x : v) x = scale * (r.u() - 0.5); return v; }
 
 // ------------------------------------------------------------------ the shared objects of one trial
+// Every object sits in a Lazy<T>.  Trial processes build all of them eagerly in the constructor (before any thread
+// exists); the fresh-process "alone" helper builds NOTHING up front, so that the single call it executes constructs
+// only the object(s) that call needs (single-threaded, on first access).
+template <class T> struct Lazy {
+  mutable std::unique_ptr<T> p; std::function<T*()> mk;
+  const T& operator()() const { if (!p) p.reset(mk()); return *p; }
+  bool built() const { return bool(p); }
+};
+
 struct Shared {
-  Params P;
-  Geodesic g, gx; GeodesicExact ge;
-  GeodesicLine glX, glY, glxX; GeodesicLineExact gleX;
-  Rhumb rs, rx; RhumbLine rls, rlx;
-  TransverseMercator tm, tmx; TransverseMercatorExact tme;
-  PolarStereographic ps; LambertConformalConic lcc1, lcc2; AlbersEqualArea alb1, alb2;
-  Geocentric gc; LocalCartesian lc; Ellipsoid ell; AuxLatitude aux; DAuxLatitude daux; EllipticFunction ef;
-  NormalGravity ng;
-  std::vector<double> C, S, C1, S1, C2, S2;
-  SphericalHarmonic sh; SphericalHarmonic1 sh1; SphericalHarmonic2 sh2; CircularEngine ce, ceg;
-  GravityModel gm; GravityCircle gmc; MagneticModel mm; MagneticCircle mmc;
-  Geoid geob, geoc;
-  Gnomonic gn; AzimuthalEquidistant ae; CassiniSoldner cs;
-  Intersect inter;
-  PolygonArea poly, pline; PolygonAreaExact polye; PolygonAreaRhumb polyr;
-  // ---- the same classes built through their OTHER public constructors / factories / pre-barrier mutators
-  AuxLatitude auxab;                                   // AuxLatitude::axes(a, b)  (private pair constructor)
-  LambertConformalConic lcc3, lcc4; AlbersEqualArea alb3, alb4; PolarStereographic ps2;   // sin/cos constructors; SetScale
-  EllipticFunction ef4;                                // (k2, alpha2, kp2, alphap2)
-  NormalGravity ngJ2;                                  // from J2 (geometricp = false)
-  LocalCartesian lc2; CassiniSoldner cs2;              // default-earth constructors + Reset
-  Gnomonic gnx; AzimuthalEquidistant aex;              // on Geodesic(exact=true)
-  GeodesicLine glC, glI, glD, glxI; GeodesicLineExact gleC, gleI;   // line constructors; InverseLine / DirectLine (distance set)
-  SphericalHarmonic shb; SphericalHarmonic1 sh1b; SphericalHarmonic2 sh2b;   // (N, nmx, mmx) constructors
-  GravityModel gmt; GravityCircle gmct; MagneticModel mmt; MagneticCircle mmct;   // truncated (Nmax, Mmax); other earth; restricted caps
-  PolygonArea polyx; PolygonAreaRhumb polyrx;          // on Geodesic(exact=true) / Rhumb(exact)
-  // variant tables used by the registry (index = Op::p / 1000)
-  const AuxLatitude* auxv[2]; const PolarStereographic* psv[2]; const EllipticFunction* efv[2]; const NormalGravity* ngv[2];
-  const LocalCartesian* lcv[2]; const CassiniSoldner* csv[2]; const Gnomonic* gnv[2]; const AzimuthalEquidistant* aev[2];
-  const SphericalHarmonic* shv[2]; const SphericalHarmonic1* sh1v[2]; const SphericalHarmonic2* sh2v[2];
-  const GravityModel* gmv[2]; const GravityCircle* gmcv[2]; const MagneticModel* mmv[2]; const MagneticCircle* mmcv[2];
+  Params P; bool lazy;
+  std::vector<double> C, S, C1, S1, C2, S2, Cf, Sf;
+  // ---- primary constructors, ellipsoid (a, f)
+  Lazy<Geodesic> g; Lazy<GeodesicExact> ge; Lazy<GeodesicLine> glX, glY; Lazy<GeodesicLineExact> gleX;
+  Lazy<Rhumb> rs; Lazy<RhumbLine> rls;
+  Lazy<TransverseMercator> tm; Lazy<TransverseMercatorExact> tme;
+  Lazy<PolarStereographic> ps; Lazy<LambertConformalConic> lcc1, lcc2; Lazy<AlbersEqualArea> alb1, alb2;
+  Lazy<Geocentric> gc; Lazy<LocalCartesian> lc; Lazy<Ellipsoid> ell; Lazy<AuxLatitude> aux; Lazy<DAuxLatitude> daux; Lazy<EllipticFunction> ef;
+  Lazy<NormalGravity> ng;
+  Lazy<SphericalHarmonic> sh; Lazy<SphericalHarmonic1> sh1; Lazy<SphericalHarmonic2> sh2; Lazy<CircularEngine> ce, ceg;
+  Lazy<GravityModel> gm; Lazy<GravityCircle> gmc; Lazy<MagneticModel> mm; Lazy<MagneticCircle> mmc;
+  Lazy<Geoid> geob, geoc;
+  Lazy<Gnomonic> gn; Lazy<AzimuthalEquidistant> ae; Lazy<CassiniSoldner> cs;
+  Lazy<Intersect> inter;
+  Lazy<PolygonArea> poly, pline; Lazy<PolygonAreaExact> polye; Lazy<PolygonAreaRhumb> polyr;
+  Lazy<GeodesicLine> glC, glI, glD; Lazy<GeodesicLineExact> gleC, gleI;   // line constructor / InverseLine / DirectLine
+  // ---- the same classes through their OTHER public constructors / factories / pre-barrier mutators, ellipsoid (a2, f2)
+  Lazy<Geodesic> gx; Lazy<GeodesicLine> glxX, glxI; Lazy<Rhumb> rx; Lazy<RhumbLine> rlx;      // exact = true
+  Lazy<TransverseMercator> tmx;                                                                // exact = true
+  Lazy<AuxLatitude> auxab;                                                                     // AuxLatitude::axes(a, b)
+  Lazy<LambertConformalConic> lcc3, lcc4; Lazy<AlbersEqualArea> alb3, alb4; Lazy<PolarStereographic> ps2;   // sin/cos constructors; SetScale
+  Lazy<EllipticFunction> ef4;                                                                  // (k2, alpha2, kp2, alphap2)
+  Lazy<NormalGravity> ngJ2;                                                                    // from J2
+  Lazy<LocalCartesian> lc2; Lazy<CassiniSoldner> cs2;                                          // default earth (WGS84) + Reset
+  Lazy<Gnomonic> gnx; Lazy<AzimuthalEquidistant> aex; Lazy<PolygonArea> polyx; Lazy<PolygonAreaRhumb> polyrx;
+  Lazy<SphericalHarmonic> shb; Lazy<SphericalHarmonic1> sh1b; Lazy<SphericalHarmonic2> sh2b;   // (N, nmx, mmx) constructors
+  Lazy<GravityModel> gmt; Lazy<GravityCircle> gmct; Lazy<MagneticModel> mmt; Lazy<MagneticCircle> mmct;   // truncated; other earth
+  // ---- constructed before the barrier, never evaluated before it, degree larger than anything evaluated earlier in the process
+  Lazy<SphericalHarmonic> shfresh;
+
+  // variant selection used by the registry (index = Op::p / 1000)
+  const AuxLatitude& auxv(int k) const { return k ? auxab() : aux(); }
+  const PolarStereographic& psv(int k) const { return k ? ps2() : ps(); }
+  const EllipticFunction& efv(int k) const { return k ? ef4() : ef(); }
+  const NormalGravity& ngv(int k) const { return k ? ngJ2() : ng(); }
+  const LocalCartesian& lcv(int k) const { return k ? lc2() : lc(); }
+  const CassiniSoldner& csv(int k) const { return k ? cs2() : cs(); }
+  const Gnomonic& gnv(int k) const { return k ? gnx() : gn(); }
+  const AzimuthalEquidistant& aev(int k) const { return k ? aex() : ae(); }
+  const SphericalHarmonic& shv(int k) const { return k == 2 ? shfresh() : k ? shb() : sh(); }
+  const SphericalHarmonic1& sh1v(int k) const { return k ? sh1b() : sh1(); }
+  const SphericalHarmonic2& sh2v(int k) const { return k ? sh2b() : sh2(); }
+  const GravityModel& gmv(int k) const { return k ? gmt() : gm(); }
+  const GravityCircle& gmcv(int k) const { return k ? gmct() : gmc(); }
+  const MagneticModel& mmv(int k) const { return k ? mmt() : mm(); }
+  const MagneticCircle& mmcv(int k) const { return k ? mmct() : mmc(); }
 
   static int csz(int N) { return (N + 1) * (N + 2) / 2; }
   static SphericalHarmonic::normalization nrm(int k) { return k ? SphericalHarmonic::SCHMIDT : SphericalHarmonic::FULL; }
-  struct CoefInit { CoefInit(Shared& s) {
-    Rng r(s.P.coeffseed);
-    s.C = mkcoef(r, csz(s.P.shN), 1.0); s.S = mkcoef(r, csz(s.P.shN) - (s.P.shN + 1), 1.0);
-    s.C1 = mkcoef(r, csz(s.P.shN1), 0.1); s.S1 = mkcoef(r, csz(s.P.shN1) - (s.P.shN1 + 1), 0.1);
-    s.C2 = mkcoef(r, csz(s.P.shN2), 0.1); s.S2 = mkcoef(r, csz(s.P.shN2) - (s.P.shN2 + 1), 0.1); } };
-  static const Params& prep(const Params& p) {   // (re)write the data files before the readers are constructed
-    if (!c14f::write_all(p.dir, p.name, p.fs)) throw std::runtime_error("cannot write synthetic data files in " + p.dir);
-    return p; }
+  template <class PA> PA* addpts(PA* q) const { for (auto& v : P.poly) q->AddPoint(v.first, v.second); return q; }
 
-  explicit Shared(const Params& p)
-    : P(prep(p)),
-      g(P.a, P.f), gx(P.a, P.f, true), ge(P.a, P.f),
-      glX(g.Line(P.lx[0], P.lx[1], P.lx[2])), glY(g.Line(P.ly[0], P.ly[1], P.ly[2])),
-      glxX(gx.Line(P.lx[0], P.lx[1], P.lx[2])), gleX(ge.Line(P.lx[0], P.lx[1], P.lx[2])),
-      rs(P.a, P.f, false), rx(P.a, P.f, true), rls(rs.Line(P.lx[0], P.lx[1], P.lx[2])), rlx(rx.Line(P.ly[0], P.ly[1], P.ly[2])),
-      tm(P.a, P.f, P.k0), tmx(P.a, P.ftm, P.k0, true, P.tm_extend), tme(P.a, P.ftm, P.k0, P.tm_extend),
-      ps(P.a, P.f, P.k0), lcc1(P.a, P.f, P.stdlat, P.k0), lcc2(P.a, P.f, P.stdlat1, P.stdlat2, P.k0),
-      alb1(P.a, P.f, P.stdlat, P.k0), alb2(P.a, P.f, P.stdlat1, P.stdlat2, P.k0),
-      gc(P.a, P.f), lc(P.lat0, P.lon0, P.h0, gc), ell(P.a, P.f), aux(P.a, P.f), daux(P.a, P.f), ef(P.k2, P.alpha2),
-      ng(P.a, 3.986004418e14 * (P.a / 6378137.0) * (P.a / 6378137.0) * (P.a / 6378137.0), 7.292115e-5, P.f, true),
-      sh((CoefInit(*this), C), S, P.shN, P.a, nrm(P.shnorm)),
-      sh1(C, S, P.shN, C1, S1, P.shN1, P.a, nrm(P.shnorm)),
-      sh2(C, S, P.shN, C1, S1, P.shN1, C2, S2, P.shN2, P.a, nrm(P.shnorm)),
-      ce(sh.Circle(P.cp, P.cz, false)), ceg(sh2.Circle(0.3, -0.7, P.cp, P.cz, true)),
-      gm(P.name, P.dir), gmc(gm.Circle(P.gm_lat, P.gm_h)), mm(P.name, P.dir), mmc(mm.Circle(P.mm_t, P.mm_lat, P.mm_h)),
-      geob(P.name, P.dir, false, true), geoc(P.name, P.dir, true, true),
-      gn(g), ae(g), cs(P.lat0, P.lon0, g),
-      inter(P.inter_exact ? gx : g),
-      poly(g, false), pline(g, true), polye(ge, false), polyr(rs, false),
-      auxab(AuxLatitude::axes(P.a, P.a * (1 - P.f))),
-      lcc3(P.a, P.f, Math::sind(P.stdlat1), Math::cosd(P.stdlat1), Math::sind(P.stdlat2), Math::cosd(P.stdlat2), P.k0), lcc4(lcc2),
-      alb3(P.a, P.f, Math::sind(P.stdlat1), Math::cosd(P.stdlat1), Math::sind(P.stdlat2), Math::cosd(P.stdlat2), P.k0), alb4(alb2),
-      ps2(P.a, P.f, P.k0),
-      ef4(P.k2, P.alpha2, 1 - P.k2, 1 - P.alpha2),
-      ngJ2(P.a, ng.MassConstant(), 7.292115e-5, ng.DynamicalFormFactor(), false),
-      lc2(P.ly[0], P.ly[1]), cs2(),
-      gnx(gx), aex(gx),
-      glC(g, P.ly[0], P.ly[1], P.ly[2], Geodesic::ALL), glI(g.InverseLine(P.lx[0], P.lx[1], P.ly[0], P.ly[1])),
-      glD(g.DirectLine(P.lx[0], P.lx[1], P.lx[2], P.a * 1.3)), glxI(gx.InverseLine(P.lx[0], P.lx[1], P.ly[0], P.ly[1])),
-      gleC(ge, P.ly[0], P.ly[1], P.ly[2], GeodesicExact::ALL), gleI(ge.InverseLine(P.lx[0], P.lx[1], P.ly[0], P.ly[1])),
-      shb(C, S, P.shN, P.shN - 1, (P.shN - 1) / 2, P.a, nrm(P.shnorm)),
-      sh1b(C, S, P.shN, P.shN, P.shN, C1, S1, P.shN1, P.shN1, P.shN1 / 2, P.a, nrm(P.shnorm)),
-      sh2b(C, S, P.shN, P.shN, P.shN / 2, C1, S1, P.shN1, std::min(P.shN1, P.shN), std::min(P.shN1, P.shN / 2),
-           C2, S2, P.shN2, std::min(P.shN2, P.shN), std::min(P.shN2, P.shN / 2), P.a, nrm(P.shnorm)),
-      gmt(P.name, P.dir, std::max(2, P.fs.gN - 2), std::max(0, std::min(P.fs.gM, P.fs.gN - 2) / 2)),
-      gmct(gmt.Circle(-P.gm_lat, P.gm_h * 0.5)),
-      mmt(P.name, P.dir, gc, std::max(1, P.fs.mN - 1), std::max(0, std::min(P.fs.mM, P.fs.mN - 1) / 2)),
-      mmct(mmt.Circle(2015 + (P.mm_t - 2014) / 3, P.mm_lat, P.mm_h)),
-      polyx(gx, false), polyrx(rx, false),
-      auxv{&aux, &auxab}, psv{&ps, &ps2}, efv{&ef, &ef4}, ngv{&ng, &ngJ2}, lcv{&lc, &lc2}, csv{&cs, &cs2}, gnv{&gn, &gnx}, aev{&ae, &aex},
-      shv{&sh, &shb}, sh1v{&sh1, &sh1b}, sh2v{&sh2, &sh2b}, gmv{&gm, &gmt}, gmcv{&gmc, &gmct}, mmv{&mm, &mmt}, mmcv{&mmc, &mmct}
-  {
-    // mutators that belong to construction (all before any thread exists)
-    lcc4.SetScale(P.stdlat1 * 0.5, 1.1); alb4.SetScale(P.stdlat1 * 0.5, 1.1); ps2.SetScale(P.stdlat >= 0 ? 71 : -71, 0.98);
-    lc2.Reset(P.lat0, P.lon0, P.h0); cs2.Reset(P.ly[0], P.ly[1]);
-    for (auto& q : P.poly) { polyx.AddPoint(q.first, q.second); polyrx.AddPoint(q.first, q.second); }
-    for (auto& q : P.poly) { poly.AddPoint(q.first, q.second); pline.AddPoint(q.first, q.second);
-                             polye.AddPoint(q.first, q.second); polyr.AddPoint(q.first, q.second); }
-    // same exclusion for the helgrind pass (client requests; no-ops outside valgrind)
-    if (annotate_counters()) {
-      C14_HG_IGNORE(&(inter.*get(IcTag0())), sizeof(long long)); C14_HG_IGNORE(&(inter.*get(IcTag1())), sizeof(long long));
-      C14_HG_IGNORE(&(inter.*get(IcTag2())), sizeof(long long)); C14_HG_IGNORE(&(inter.*get(IcTag3())), sizeof(long long));
-      C14_HG_IGNORE(&(inter.*get(IcTag4())), sizeof(long long));
-    }
+  // lazy = true: nothing of the library is constructed here
+  explicit Shared(const Params& p, bool lazy_ = false) : P(p), lazy(lazy_) {
+    if (!c14f::write_all(P.dir, P.name, P.fs)) throw std::runtime_error("cannot write synthetic data files in " + P.dir);
+    { Rng r(P.coeffseed);
+      C = mkcoef(r, csz(P.shN), 1.0); S = mkcoef(r, csz(P.shN) - (P.shN + 1), 1.0);
+      C1 = mkcoef(r, csz(P.shN1), 0.1); S1 = mkcoef(r, csz(P.shN1) - (P.shN1 + 1), 0.1);
+      C2 = mkcoef(r, csz(P.shN2), 0.1); S2 = mkcoef(r, csz(P.shN2) - (P.shN2 + 1), 0.1);
+      Cf = mkcoef(r, 3 * (P.freshdeg + 1), 1.0); Sf = mkcoef(r, 3 * (P.freshdeg + 1), 1.0); }
+    const double a = P.a, f = P.f, a2 = P.a2, f2 = P.f2, k0 = P.k0;
+    const double s1 = Math::sind(P.stdlat1), c1 = Math::cosd(P.stdlat1), s2 = Math::sind(P.stdlat2), c2 = Math::cosd(P.stdlat2);
+#define MK(m, T, expr) m.mk = [=]() -> T* { return expr; }
+    MK(g, Geodesic, new Geodesic(a, f)); MK(ge, GeodesicExact, new GeodesicExact(a, f));
+    MK(glX, GeodesicLine, new GeodesicLine(g().Line(P.lx[0], P.lx[1], P.lx[2]))); MK(glY, GeodesicLine, new GeodesicLine(g().Line(P.ly[0], P.ly[1], P.ly[2])));
+    MK(gleX, GeodesicLineExact, new GeodesicLineExact(ge().Line(P.lx[0], P.lx[1], P.lx[2])));
+    MK(rs, Rhumb, new Rhumb(a, f, false)); MK(rls, RhumbLine, new RhumbLine(rs().Line(P.lx[0], P.lx[1], P.lx[2])));
+    MK(tm, TransverseMercator, new TransverseMercator(a, f, k0)); MK(tme, TransverseMercatorExact, new TransverseMercatorExact(a, P.ftm, k0, P.tm_extend));
+    MK(ps, PolarStereographic, new PolarStereographic(a, f, k0));
+    MK(lcc1, LambertConformalConic, new LambertConformalConic(a, f, P.stdlat, k0)); MK(lcc2, LambertConformalConic, new LambertConformalConic(a, f, P.stdlat1, P.stdlat2, k0));
+    MK(alb1, AlbersEqualArea, new AlbersEqualArea(a, f, P.stdlat, k0)); MK(alb2, AlbersEqualArea, new AlbersEqualArea(a, f, P.stdlat1, P.stdlat2, k0));
+    MK(gc, Geocentric, new Geocentric(a, f)); MK(lc, LocalCartesian, new LocalCartesian(P.lat0, P.lon0, P.h0, gc()));
+    MK(ell, Ellipsoid, new Ellipsoid(a, f)); MK(aux, AuxLatitude, new AuxLatitude(a, f)); MK(daux, DAuxLatitude, new DAuxLatitude(a, f));
+    MK(ef, EllipticFunction, new EllipticFunction(P.k2, P.alpha2));
+    MK(ng, NormalGravity, new NormalGravity(a, 3.986004418e14 * (a / 6378137.0) * (a / 6378137.0) * (a / 6378137.0), 7.292115e-5, f, true));
+    MK(sh, SphericalHarmonic, new SphericalHarmonic(C, S, P.shN, a, nrm(P.shnorm)));
+    MK(sh1, SphericalHarmonic1, new SphericalHarmonic1(C, S, P.shN, C1, S1, P.shN1, a, nrm(P.shnorm)));
+    MK(sh2, SphericalHarmonic2, new SphericalHarmonic2(C, S, P.shN, C1, S1, P.shN1, C2, S2, P.shN2, a, nrm(P.shnorm)));
+    MK(ce, CircularEngine, new CircularEngine(sh().Circle(P.cp, P.cz, false))); MK(ceg, CircularEngine, new CircularEngine(sh2().Circle(0.3, -0.7, P.cp, P.cz, true)));
+    MK(gm, GravityModel, new GravityModel(P.name, P.dir)); MK(gmc, GravityCircle, new GravityCircle(gm().Circle(P.gm_lat, P.gm_h)));
+    MK(mm, MagneticModel, new MagneticModel(P.name, P.dir)); MK(mmc, MagneticCircle, new MagneticCircle(mm().Circle(P.mm_t, P.mm_lat, P.mm_h)));
+    MK(geob, Geoid, new Geoid(P.name, P.dir, false, true)); MK(geoc, Geoid, new Geoid(P.name, P.dir, true, true));
+    MK(gn, Gnomonic, new Gnomonic(g())); MK(ae, AzimuthalEquidistant, new AzimuthalEquidistant(g())); MK(cs, CassiniSoldner, new CassiniSoldner(P.lat0, P.lon0, g()));
+    inter.mk = [=]() -> Intersect* {
+      Intersect* q = new Intersect(P.inter_exact ? Geodesic(a, f, true) : g());
+      // The five Intersect counters are documented as mutable and not thread safe and are excluded by the
+      // property; every other byte of the Intersect object stays monitored.
+      if (annotate_counters()) {
+        long long* c[5] = {&(q->*get(IcTag0())), &(q->*get(IcTag1())), &(q->*get(IcTag2())), &(q->*get(IcTag3())), &(q->*get(IcTag4()))};
+        for (long long* x : c) {
+          C14_HG_IGNORE(x, sizeof(long long));
 #if defined(__SANITIZE_THREAD__)
-    // The five Intersect counters are documented as mutable and not thread safe and are excluded by
-    // the property; every other byte of the Intersect object stays monitored.
-    if (annotate_counters()) {
-    AnnotateBenignRaceSized(__FILE__, __LINE__, &(inter.*get(IcTag0())), sizeof(long long), "documented Intersect counter _cnt0");
-    AnnotateBenignRaceSized(__FILE__, __LINE__, &(inter.*get(IcTag1())), sizeof(long long), "documented Intersect counter _cnt1");
-    AnnotateBenignRaceSized(__FILE__, __LINE__, &(inter.*get(IcTag2())), sizeof(long long), "documented Intersect counter _cnt2");
-    AnnotateBenignRaceSized(__FILE__, __LINE__, &(inter.*get(IcTag3())), sizeof(long long), "documented Intersect counter _cnt3");
-    AnnotateBenignRaceSized(__FILE__, __LINE__, &(inter.*get(IcTag4())), sizeof(long long), "documented Intersect counter _cnt4");
-    }
+          AnnotateBenignRaceSized(__FILE__, __LINE__, x, sizeof(long long), "documented Intersect counter");
 #endif
+        }
+      }
+      return q; };
+    MK(poly, PolygonArea, addpts(new PolygonArea(g(), false))); MK(pline, PolygonArea, addpts(new PolygonArea(g(), true)));
+    MK(polye, PolygonAreaExact, addpts(new PolygonAreaExact(ge(), false))); MK(polyr, PolygonAreaRhumb, addpts(new PolygonAreaRhumb(rs(), false)));
+    MK(glC, GeodesicLine, new GeodesicLine(g(), P.ly[0], P.ly[1], P.ly[2], Geodesic::ALL));
+    MK(glI, GeodesicLine, new GeodesicLine(g().InverseLine(P.lx[0], P.lx[1], P.ly[0], P.ly[1])));
+    MK(glD, GeodesicLine, new GeodesicLine(g().DirectLine(P.lx[0], P.lx[1], P.lx[2], a * 1.3)));
+    MK(gleC, GeodesicLineExact, new GeodesicLineExact(ge(), P.ly[0], P.ly[1], P.ly[2], GeodesicExact::ALL));
+    MK(gleI, GeodesicLineExact, new GeodesicLineExact(ge().InverseLine(P.lx[0], P.lx[1], P.ly[0], P.ly[1])));
+    // ---- second ellipsoid
+    MK(gx, Geodesic, new Geodesic(a2, f2, true));
+    MK(glxX, GeodesicLine, new GeodesicLine(gx().Line(P.lx[0], P.lx[1], P.lx[2]))); MK(glxI, GeodesicLine, new GeodesicLine(gx().InverseLine(P.lx[0], P.lx[1], P.ly[0], P.ly[1])));
+    MK(rx, Rhumb, new Rhumb(a2, f2, true)); MK(rlx, RhumbLine, new RhumbLine(rx().Line(P.ly[0], P.ly[1], P.ly[2])));
+    MK(tmx, TransverseMercator, new TransverseMercator(a2, P.ftm2, k0, true, P.tm_extend));
+    MK(auxab, AuxLatitude, new AuxLatitude(AuxLatitude::axes(a2, a2 * (1 - f2))));
+    MK(lcc3, LambertConformalConic, new LambertConformalConic(a2, f2, s1, c1, s2, c2, k0));
+    lcc4.mk = [=]() { auto* q = new LambertConformalConic(a2, f2, P.stdlat1, P.stdlat2, k0); q->SetScale(P.stdlat1 * 0.5, 1.1); return q; };
+    MK(alb3, AlbersEqualArea, new AlbersEqualArea(a2, f2, s1, c1, s2, c2, k0));
+    alb4.mk = [=]() { auto* q = new AlbersEqualArea(a2, f2, P.stdlat1, P.stdlat2, k0); q->SetScale(P.stdlat1 * 0.5, 1.1); return q; };
+    ps2.mk = [=]() { auto* q = new PolarStereographic(a2, f2, k0); q->SetScale(P.stdlat >= 0 ? 71 : -71, 0.98); return q; };
+    MK(ef4, EllipticFunction, new EllipticFunction(P.k2, P.alpha2, 1 - P.k2, 1 - P.alpha2));
+    ngJ2.mk = [=]() { real GM = 3.986004418e14 * (a2 / 6378137.0) * (a2 / 6378137.0) * (a2 / 6378137.0), om = 7.292115e-5;
+                      return new NormalGravity(a2, GM, om, NormalGravity::FlatteningToJ2(a2, GM, om, f2), false); };
+    lc2.mk = [=]() { auto* q = new LocalCartesian(P.ly[0], P.ly[1]); q->Reset(P.lat0, P.lon0, P.h0); return q; };
+    cs2.mk = [=]() { auto* q = new CassiniSoldner(); q->Reset(P.ly[0], P.ly[1]); return q; };
+    MK(gnx, Gnomonic, new Gnomonic(gx())); MK(aex, AzimuthalEquidistant, new AzimuthalEquidistant(gx()));
+    MK(polyx, PolygonArea, addpts(new PolygonArea(gx(), false))); MK(polyrx, PolygonAreaRhumb, addpts(new PolygonAreaRhumb(rx(), false)));
+    MK(shb, SphericalHarmonic, new SphericalHarmonic(C, S, P.shN, P.shN - 1, (P.shN - 1) / 2, a2, nrm(P.shnorm)));
+    MK(sh1b, SphericalHarmonic1, new SphericalHarmonic1(C, S, P.shN, P.shN, P.shN, C1, S1, P.shN1, P.shN1, P.shN1 / 2, a2, nrm(P.shnorm)));
+    MK(sh2b, SphericalHarmonic2, new SphericalHarmonic2(C, S, P.shN, P.shN, P.shN / 2, C1, S1, P.shN1, std::min(P.shN1, P.shN), std::min(P.shN1, P.shN / 2),
+                                                      C2, S2, P.shN2, std::min(P.shN2, P.shN), std::min(P.shN2, P.shN / 2), a2, nrm(P.shnorm)));
+    MK(gmt, GravityModel, new GravityModel(P.name, P.dir, std::max(2, P.fs.gN - 2), std::max(0, std::min(P.fs.gM, P.fs.gN - 2) / 2)));
+    MK(gmct, GravityCircle, new GravityCircle(gmt().Circle(-P.gm_lat, P.gm_h * 0.5)));
+    MK(mmt, MagneticModel, new MagneticModel(P.name, P.dir, gc(), std::max(1, P.fs.mN - 1), std::max(0, std::min(P.fs.mM, P.fs.mN - 1) / 2)));
+    MK(mmct, MagneticCircle, new MagneticCircle(mmt().Circle(2015 + (P.mm_t - 2014) / 3, P.mm_lat, P.mm_h)));
+    MK(shfresh, SphericalHarmonic, new SphericalHarmonic(Cf, Sf, P.freshdeg, P.freshdeg, std::min(1, P.freshdeg), a, nrm(P.shnorm)));
+#undef MK
+    if (!lazy) {
+      // eager: everything exists before the barrier.  With prebuilt_circles == false nothing here EVALUATES a harmonic
+      // sum (Circle() is an evaluation), so the first evaluation of every harmonic object happens on the worker threads.
+      g(); ge(); glX(); glY(); gleX(); rs(); rls(); tm(); tme(); ps(); lcc1(); lcc2(); alb1(); alb2(); gc(); lc(); ell(); aux(); daux(); ef(); ng();
+      sh(); sh1(); sh2(); gm(); mm(); geob(); geoc(); gn(); ae(); cs(); gx(); inter(); poly(); pline(); polye(); polyr(); glC(); glI(); glD(); gleC(); gleI();
+      glxX(); glxI(); rx(); rlx(); tmx(); auxab(); lcc3(); lcc4(); alb3(); alb4(); ps2(); ef4(); ngJ2(); lc2(); cs2(); gnx(); aex(); polyx(); polyrx();
+      shb(); sh1b(); sh2b(); gmt(); mmt(); shfresh();
+      if (P.prebuilt_circles) { ce(); ceg(); gmc(); mmc(); gmct(); mmct(); }
+    }
   }
   ~Shared() {
-    C14_HG_UNIGNORE(&(inter.*get(IcTag0())), sizeof(long long)); C14_HG_UNIGNORE(&(inter.*get(IcTag1())), sizeof(long long));
-    C14_HG_UNIGNORE(&(inter.*get(IcTag2())), sizeof(long long)); C14_HG_UNIGNORE(&(inter.*get(IcTag3())), sizeof(long long));
-    C14_HG_UNIGNORE(&(inter.*get(IcTag4())), sizeof(long long));
+    if (inter.built()) {
+      Intersect* q = inter.p.get();
+      long long* c[5] = {&(q->*get(IcTag0())), &(q->*get(IcTag1())), &(q->*get(IcTag2())), &(q->*get(IcTag3())), &(q->*get(IcTag4()))};
+      for (long long* x : c) { C14_HG_UNIGNORE(x, sizeof(long long)); (void)x; }
+    }
   }
   Shared(const Shared&) = delete;
 };
 
 // ------------------------------------------------------------------ registry
 typedef void (*OpFn)(const Shared*, Rng&, Res&, int);
-struct Op { std::string name, cls; double w; bool needs_shared; OpFn fn; int p; };
+struct Op { std::string name, cls; double w; bool needs_shared; OpFn fn; int p; bool needs_circle = false; };
 inline std::vector<Op>& registry() { static std::vector<Op> R; return R; }
 inline void add(const std::string& name, const std::string& cls, double w, bool ns, OpFn fn, int p = 0) {
   registry().push_back(Op{name, cls, w, ns, fn, p}); }
 
 // object variant selected by Op::p / 1000 (0 = primary constructor, 1 = alternative constructor / factory)
-#define VAR(arr) (*S->arr[pv / 1000])
+#define VAR(arr) (S->arr(pv / 1000))
 // re-register every operation whose name starts with oldpre for variant v under newpre / newcls
 inline void add_variant(const std::string& oldpre, const std::string& newpre, const std::string& newcls, int v) {
   size_t n = registry().size();
@@ -345,6 +396,16 @@ inline void exec(const Op& op, const Shared* S, uint64_t seed, Res& out) {
   catch (const GeographicErr& e) { out.exc = 1; out.str(e.what()); }
   catch (const std::exception& e) { out.exc = 2; out.str(e.what()); }
   catch (...) { out.exc = 3; }
+}
+
+// serialisation of a result for the cross-process comparison (bit-exact)
+inline std::string reshex(const Res& r) {
+  char b[64]; std::string o;
+  std::snprintf(b, sizeof b, "%d:%d:%016llx:", r.n, r.exc, (unsigned long long)r.fold); o += b;
+  for (int k = 0; k < r.n; ++k) { uint64_t u; std::memcpy(&u, &r.v[k], 8); std::snprintf(b, sizeof b, "%016llx,", (unsigned long long)u); o += b; }
+  o += ":";
+  for (unsigned char c : r.s) { std::snprintf(b, sizeof b, "%02x", c); o += b; }
+  return o;
 }
 
 void register_all();   // defined in C14_ops2.hpp
